@@ -50,6 +50,16 @@ theorem scanConfigs_frame (log : List Entry) (n start : Nat) (v v' : Vol)
       exact ⟨a1.trans b1, a2.trans b2, a3.trans b3, a4.trans b4, a5.trans b5, a6.trans b6, a7.trans b7,
              a8.trans b8, a9.trans b9, a10.trans b10, a11.trans b11⟩
 
+theorem sameButConfig_trans {a b c : Vol} (h1 : sameButConfig a b) (h2 : sameButConfig b c) : sameButConfig a c := by
+  obtain ⟨a1, a2, a3, a4, a5, a6, a7, a8, a9, a10, a11⟩ := h1
+  obtain ⟨b1, b2, b3, b4, b5, b6, b7, b8, b9, b10, b11⟩ := h2
+  exact ⟨a1.trans b1, a2.trans b2, a3.trans b3, a4.trans b4, a5.trans b5, a6.trans b6, a7.trans b7,
+         a8.trans b8, a9.trans b9, a10.trans b10, a11.trans b11⟩
+
+theorem restartCommitCfg_frame (v : Vol) : sameButConfig (restartCommitCfg v) v := by
+  unfold restartCommitCfg sameButConfig
+  split <;> simp
+
 theorem getLog_index {l : List Entry} {i : Nat} {e : Entry} (h : getLog l i = some e) : e.index = i := by
   unfold getLog at h
   have := List.find?_some h
@@ -172,7 +182,7 @@ theorem restart_resumes (cf : Cfg) (d : Durable) (v : Vol) (calls : List FsmCall
         · cases h
         · rename_i v3 hs
           injection h with h; injection h with h1 h2; subst h1; subst h2
-          have fr := scanConfigs_frame _ _ _ _ _ hs
+          have fr := sameButConfig_trans (restartCommitCfg_frame v3) (scanConfigs_frame _ _ _ _ _ hs)
           obtain ⟨f1, f2, f3, f4, f5, f6, f7, f8, _, _, _⟩ := fr
           have sp := restartSnap_spec d { emptyVol with term := d.curTerm, lastLogIdx := li, lastLogTerm := lt }
           obtain ⟨s0, s1, s2, s3, s4, s5, s6⟩ := sp
@@ -245,7 +255,8 @@ theorem restart_fsm (cf : Cfg) (d : Durable) (v : Vol) (calls : List FsmCall)
         · cases h
         · rename_i v3 hs
           injection h with h; injection h with h1 h2; subst h1; subst h2
-          obtain ⟨_, _, _, _, _, _, f7, f8, _, _, _⟩ := scanConfigs_frame _ _ _ _ _ hs
+          obtain ⟨_, _, _, _, _, _, f7, f8, _, _, _⟩ :=
+            sameButConfig_trans (restartCommitCfg_frame v3) (scanConfigs_frame _ _ _ _ _ hs)
           obtain ⟨s0, _, _, _, _, s5, s6⟩ :=
             restartSnap_spec d { emptyVol with term := d.curTerm, lastLogIdx := li, lastLogTerm := lt }
           obtain ⟨s6a, _, _⟩ := s6 rfl rfl rfl
@@ -259,8 +270,8 @@ theorem restart_fsm (cf : Cfg) (d : Durable) (v : Vol) (calls : List FsmCall)
               injection hc with hc; injection hc with hc1 hc2; subst hc1; subst hc2
               rw [s6a] at hp
               refine ⟨pcalls, by rw [s0], ?_⟩
-              have hcommit : v3.commit = min d.staged d.high := by rw [f7]
-              have happlied : v3.applied = max (restartBase d) (min d.staged d.high) := by
+              have hcommit : (restartCommitCfg v3).commit = min d.staged d.high := by rw [f7]
+              have happlied : (restartCommitCfg v3).applied = max (restartBase d) (min d.staged d.high) := by
                 rw [f8]; simp only [s6a]
                 split <;> omega
               unfold processLogs at hp
@@ -281,7 +292,7 @@ theorem restart_fsm (cf : Cfg) (d : Durable) (v : Vol) (calls : List FsmCall)
             have hrc' : cf.restoreCommitted = false := by simpa using hrc
             refine ⟨[], by rw [s0]; simp, by simp, by simp, ?_, ?_, by simp [hrc']⟩
             · intro i e h1 h2
-              have : v3.applied = restartBase d := by rw [f8, s6a]
+              have : (restartCommitCfg v3).applied = restartBase d := by rw [f8, s6a]
               omega
             · intro _
               refine ⟨by rw [f8, s6a], rfl, ?_⟩
